@@ -341,11 +341,14 @@ func replayFinding(p *PropCheck, f Finding) (bool, string, string) {
 		}
 		lines := strings.Split(string(src), "\n")
 		done := false
-		for i, l := range lines {
-			if strings.Contains(l, ins.Anchor) {
+		for i := 0; i < len(lines); i++ {
+			if strings.Contains(lines[i], ins.Anchor) {
 				lines = append(lines[:i+1], append([]string{ins.Text}, lines[i+1:]...)...)
 				done = true
-				break
+				i++
+				if !ins.All {
+					break
+				}
 			}
 		}
 		if !done {
